@@ -224,7 +224,7 @@ def split_top(s, sep=','):
     return out
 
 
-CLAUSES = ('params', 'results', 'takes', 'maypanic', 'requires', 'ensures', 'modifies', 'loop', 'property', 'assume', 'trusted', 'inline', 'panics', 'note', 'spawns', 'onpanic', 'decreases', 'ghost', 'reads', 'unroll', 'atexit', 'prestate', 'nosafety', 'lemma')
+CLAUSES = ('threadlocal', 'rely', 'params', 'results', 'takes', 'maypanic', 'requires', 'ensures', 'modifies', 'loop', 'property', 'assume', 'trusted', 'inline', 'panics', 'note', 'spawns', 'onpanic', 'decreases', 'ghost', 'reads', 'unroll', 'atexit', 'prestate', 'nosafety', 'lemma')
 
 
 class FuncContract:
@@ -244,6 +244,8 @@ class FuncContract:
         self.flags = {}
         self.ghost = []       # (event, stmt text)
         self.lemmas = []
+        self.relies = []
+        self.threadlocal = []   # initial values of thread-local ghost state of a spawned goroutine (definitional)
 
 
 class Contracts:
@@ -316,12 +318,16 @@ class Contracts:
                     if w == 'requires': fc.requires.append((r, parse_expr(r)))
                     elif w == 'ensures': fc.ensures.append((r, parse_expr(r)))
                     elif w == 'assume': fc.assumes.append((r, parse_expr(r)))
+                    elif w == 'threadlocal': fc.threadlocal.append((r, parse_expr(r)))
                     elif w == 'lemma': fc.lemmas.append((r, parse_expr(r)))
                     elif w == 'modifies': fc.modifies = (fc.modifies or []) + split_top(r)
                     elif w == 'property': fc.properties += r.split()
                     elif w == 'trusted': fc.trusted = True; fc.notes.append('trusted: ' + r)
                     elif w == 'inline': fc.inline = True
                     elif w == 'note': fc.notes.append(r)
+                    elif w == 'rely':
+                        ent, _, rel = r.partition(':')
+                        fc.relies.append((ent.strip(), parse_expr(rel), r))
                     elif w == 'ghost':
                         ev, _, body = r.partition(':')
                         fc.ghost.append((' '.join(ev.split()), parse_ghost_stmts(body), r))
